@@ -108,6 +108,7 @@ func genLex(w *bufio.Writer, tier string, r *rng) {
 		emit([]byte("1 + " + s + ", 2"))
 	})
 	keywordCases(func(s string) { emit([]byte(s)) })
+	byteMarkCases(func(s string) { emit([]byte(s)) })
 	for _, s := range corpusStrings() {
 		emit([]byte(s))
 	}
